@@ -190,6 +190,15 @@ def mon_c14(f):
         ran_setup = any(st["c"].get("run") == "setup" for st in f.trace)
         if ran_setup and len(hooks) != 4:
             out.append("after teardown %d hook notifications were seen, expected 4 (one connect and one disconnect for registry and link)" % len(hooks))
+    fin0 = f.rec.get("final0")
+    if fin0 and any(st["c"].get("run") == "setup" for st in f.trace):
+        # the link has ended and its reads have returned; some handlers are still inside application code
+        inapp = sorted(n for n, s in fin0["threads"].items() if s == "@handler.gate")
+        hooks0 = [e for e in fin0["events"] if e["k"] == "hook"]
+        if len(hooks0) != 4:
+            out.append("the link has ended and both reads have returned, but only %d of the 4 hook notifications were made: the disconnect notification waits for the handlers %s that are still inside application code" % (len(hooks0), inapp))
+        elif fin0["remotes"] != 0:
+            out.append("the link has ended and both reads have returned, but %d remote(s) are still enumerated (handlers %s still inside application code)" % (fin0["remotes"], inapp))
     return out
 
 
@@ -484,6 +493,12 @@ def check(res, tier, seed):
         from . import sys_props
         crecs, crc, cout = C.run_job(binary, wd, "closures", dict(family="sys", seed=seed, n=(16 if tier == "quick" else 300), cases=["closures"], params=dict(percase=6)), timeout=400)
         fam["closures(black-box)"] = len(crecs)
+        if pid == "C12":
+            # a long history on one registry: thousands of sequential closure-carrying calls, table empty after each
+            nlong = 5000 if tier == "quick" else 70000
+            lrecs, lrc, lout = C.run_job(binary, wd, "closureslong", dict(family="sys", seed=seed, n=1, cases=["closureslong"], params=dict(long=nlong)), timeout=400)
+            fam["closures(long history, %d sequential calls)" % nlong] = len(lrecs)
+            crecs = crecs + lrecs
         if crc != 0 and pid == "C05":
             monitor_hits += 1
             res.violation("closures-crash", "the process died during the closure workload: %s" % (cout.strip().splitlines() or ["?"])[-1][:300], dict(output=cout[-3000:]))
@@ -501,6 +516,33 @@ def check(res, tier, seed):
                 monitor_hits += 1
                 res.violation("closures:" + re.sub(r"\d+", "N", vs[0])[:50], "implementation violates %s: %s" % (pid, vs[0]),
                               dict(kind="sys", family=r["family"], config=r["config"], seed=r["seed"], all=vs[:8]))
+    if pid == "C15":
+        # black-box over whole link lifecycles: nothing started inside panrpc still runs, nothing derived inside
+        # panrpc still hangs off the application's context, after every link has been torn down
+        from . import sys_props
+        nr = 24 if tier == "quick" else 240
+        lrecs, lrc, lout = C.run_job(binary, wd, "lifecycle", dict(family="sys", seed=seed, n=1, cases=["lifecycle"], params=dict(rounds=nr)), timeout=600)
+        fam["lifecycle(%d link lifecycles, calls on ended links)" % nr] = len(lrecs)
+        if not lrecs:
+            monitor_hits += 1
+            res.violation("lifecycle-crash", "the process died during the link lifecycle workload: %s" % (lout.strip().splitlines() or ["?"])[-1][:300], dict(output=lout[-3000:]))
+        for r in lrecs:
+            vs = list(r.get("notes") or [])
+            if vs:
+                monitor_hits += 1
+                res.violation("lifecycle:" + re.sub(r"\d+", "N", vs[0])[:50], "implementation violates C15: %s" % vs[0],
+                              dict(kind="sys", family="lifecycle", config=r["config"], seed=r["seed"], all=vs[:8]))
+    if pid == "C14":
+        # links of every kind of remote definition (valid, and rejected for each signature rule): enumeration against
+        # the notifications while the link is up / rejected but not yet over / over
+        rrecs, rrc, rout = C.run_job(binary, wd, "remotedefs", dict(family="remote", seed=seed, n=1), timeout=300)
+        fam["remote definitions(enumeration vs notifications)"] = len(rrecs)
+        for r in rrecs:
+            vs = r.get("enum") or []
+            if vs:
+                monitor_hits += 1
+                res.violation("remote-enum:" + r["def"], "implementation violates C14: remote definition %s: %s" % (r["def"], vs[0]),
+                              dict(kind="remote", case=r))
     if pid == "C14":
         # black-box: hubs with failing and re-established links, notifications probed for atomicity
         from . import sys_props
